@@ -220,7 +220,7 @@ def run(res):
         "parsed_ok": nok, "parse_failed": nerr,
     })
     res.assumptions += ["memory safety of the free functions is runtime behaviour: observed as process survival in a build with debug assertions (which abort on a null Box), not proved",
-                        "dovi_parse_rpu_bin_file / dovi_rpu_list_free are exercised by C14 through the same reader"]
+                        "dovi_parse_rpu_bin_file / dovi_rpu_list_free are exercised on a handful of files (valid, empty, corrupted, no start code, missing); the reader behind them is C14's subject"]
     C.conclude(res, broken)
 
 
